@@ -524,7 +524,7 @@ static bool run_plan(const Plan &p, bool want_log, vector<Viol> &viols, uint64_t
         string oj; { sj::Value a = sj::Value::array(); for (auto &op : p.ops) a.push(op_to_json(op)); oj = sj::dump(a); }
         uint64_t ph = sim_fnv1a(SIM_FNV_INIT, oj.data(), oj.size());
         ST.plan_hashes.insert(ph);
-        bool faultcfg = p.cfg != "nofault";
+        bool faultcfg = p.cfg != "nofault" && p.cfg != "nofault-longfile";
         if (ex->nontrivial && (!faultcfg || ex->any_fault_fired)) ST.nontrivial.insert(ph);
     }
     bool alive = !ex->dead;
@@ -647,6 +647,9 @@ static Plan gen_plan(const string &cfg, uint64_t seed, long long index) {
             int nl; unsigned lc = (unsigned)sim_below(&w, 100);
             if (lc < 8) nl = 0; else if (lc < 50) nl = 1 + (int)sim_below(&w, 5); else nl = 1 + (int)sim_below(&w, 40);
             if (many) nl = (int)sim_below(&w, 3);
+            // rare long files: line / verdict counters (8- and 16-bit), many refills of the stream buffer
+            if (!many && sim_below(&w, 120) == 0) nl = 250 + (int)sim_below(&w, 300);
+            if (cfg == "nofault-longfile") nl = 65500 + (int)sim_below(&w, 200);
             vector<Op> lines;
             if (huge && sim_below(&w, 3) != 0) {
                 static const size_t HL[] = { 16383, 16384, 16385, 20000, 32768, 65535, 65536, 65537, 70000, 100000, 131072 };
@@ -694,6 +697,11 @@ static Plan gen_plan(const string &cfg, uint64_t seed, long long index) {
             }
             p.ops.push_back(fo);
             for (auto &lo : lines) p.ops.push_back(lo);
+            if (!many && fi + 1 < nf && sim_below(&w, 12) == 0) {   // the next operand is a byte-identical copy of this file
+                Op fo2 = fo; fo2.chunks.clear(); p.ops.push_back(fo2);
+                for (auto &lo : lines) p.ops.push_back(lo);
+                fi++;
+            }
         }
     }
     return p;
